@@ -1,17 +1,21 @@
 (* C15 - Exactly the requested C sources are checked.
    Only statements here; proofs are in Proofs/SelectProofs.v.  The model (Model/Select.v) takes the glob patterns,
    the accepted suffixes, the message formats and the exit codes from Gen.Select, regenerated from /repo's
-   __main__.py on every run; the file-selection code itself is pinned by its fingerprint (C15_source_tie).
+   __main__.py on every run; the file-selection code itself is translated statement by statement (Gen/SelectCode.v) and
+   proved equal to the model (C15_model_is_translated_code).
    root : the directory tree from "/";  cwd : the current directory;  check_ignore : the `git check-ignore` oracle.
    The operating system, CPython's glob/pathlib and git are modelled (and compared with the real ones on every run
    by the correspondence), not verified. *)
-From NV Require Import Model.Base Model.Select Proofs.SelectProofs.
+From NV Require Import Model.Base Model.Select Model.PyStmt Gen.SelectCode Proofs.SelectProofs Proofs.SelectCodeProofs.
 From Coq Require Import Permutation.
 
-Theorem C15_source_tie :
-  selection_fingerprint = "2feb637859ee49b9e712a7193efd11d3468e726dce9252d1f10c8fe69b7cc4d7"%string.
-Proof. exact selection_code_pinned. Qed.
-Print Assumptions C15_source_tie.
+(* the tie to the source: the hand-written model equals the statement-by-statement translation of the selection part of
+   main() (Gen/SelectCode.v, regenerated on every run) under the model's interpretation of pathlib / os.path / glob / git *)
+Theorem C15_model_is_translated_code : forall root cwd check_ignore g args,
+  to_outcome (code root cwd check_ignore (S (cost root cwd (stack0 root cwd args))) g args)
+  = select root cwd check_ignore g args.
+Proof. exact select_is_translated_code. Qed.
+Print Assumptions C15_model_is_translated_code.
 
 Theorem C15_tables_tie :
   glob_cwd_pattern = "**/*.[ch]"%string /\ glob_cwd_recursive = true /\
@@ -135,3 +139,33 @@ Theorem C15_reported_under_basename : forall root cwd check_ignore g args fs ms,
   forall f, In f fs -> py_basename (i_raw f) = item_name f /\ item_name f = last (apath cwd f) [].
 Proof. exact reported_under_basename. Qed.
 Print Assumptions C15_reported_under_basename.
+
+(* the main theorems read directly on the translated code *)
+Theorem C15_translated_code_sound : forall root cwd check_ignore g args s,
+  code root cwd check_ignore (S (cost root cwd (stack0 root cwd args))) g args = Next s ->
+  forall f, In f (st_files item s) ->
+    In (apath cwd f) (wanted_files root cwd args) /\ lookup root (apath cwd f) = Some File /\ is_src (item_name f) = true.
+Proof. exact translated_code_sound. Qed.
+Print Assumptions C15_translated_code_sound.
+
+Theorem C15_translated_code_complete_partial : forall root cwd check_ignore args,
+  wfb root = true -> (exists ch, lookup root cwd = Some (Dir ch)) ->
+  (forall a, In a (eff_args args) -> guarded root cwd a = true) ->
+  wanted_abort root cwd args = false ->
+  exists s, code root cwd check_ignore (S (cost root cwd (stack0 root cwd args))) false args = Next s /\
+            Permutation (map (apath cwd) (st_files item s)) (wanted_files root cwd args) /\
+            st_out item s = map bad_suffix_msg (wanted_rejects root cwd args).
+Proof. exact translated_code_complete_partial. Qed.
+Print Assumptions C15_translated_code_complete_partial.
+
+Theorem C15_translated_code_missing_aborts : forall root cwd check_ignore g args a,
+  In a args -> lookup root (apath cwd a) = None ->
+  exists b ms, code root cwd check_ignore (S (cost root cwd (stack0 root cwd args))) g args = Exit 1 (ms ++ [missing_msg b]) /\
+               In b args /\ lookup root (apath cwd b) = None.
+Proof. exact translated_code_missing_aborts. Qed.
+Print Assumptions C15_translated_code_missing_aborts.
+
+Theorem C15_translated_code_terminates : forall root cwd check_ignore g args,
+  wfb root = true -> code root cwd check_ignore (S (cost root cwd (stack0 root cwd args))) g args <> Stuck.
+Proof. exact translated_code_terminates. Qed.
+Print Assumptions C15_translated_code_terminates.
